@@ -195,13 +195,32 @@ func runDeploy(op ksOp) (*hx.Result, error) {
 			ks = append(ks, fmt.Sprintf("(%s, %s, %s, %s, %s)", hx.CoqBytes(k), hx.CoqBytes(dbk), hx.CoqBytes(tk),
 				hx.CoqBool(operator.VerifOwnsKey(rng, dbk)), hx.CoqBool(operator.VerifOwnsKey(rng, tk))))
 		}
-		items = append(items, fmt.Sprintf("(%d, %d, (%d, %d), %s)", d.N, d.Own, rng.Start, rng.End, hx.CoqList(ks, "bytes * bytes * bytes * bool * bool")))
-		obs = append(obs, map[string]any{"n": d.N, "own": d.Own, "range": [2]int{rng.Start, rng.End}})
+		// timers persisted for owned keys must be found again when a fresh timer store reloads the operator's range
+		lost := 0
+		router := partitioning.NewKeySpace(op.Count, d.N)
+		db := opr.VerifDKV()
+		for ki, k := range op.Keys {
+			if router.RangeIndex(k) != d.Own {
+				continue
+			}
+			at := time.Unix(int64(1+ki), 0)
+			operator.NewTimerStore(db, router, rng, 1<<20).Put(k, at)
+			reload := operator.NewTimerStore(db, router, rng, 1<<20)
+			tm, ok := reload.GetEarliest()
+			if !ok || string(tm.Key) != string(k) || !tm.Timestamp.Equal(at) {
+				lost++
+			}
+			if ok {
+				reload.Pop()
+			}
+		}
+		items = append(items, fmt.Sprintf("(%d, %d, (%d, %d), %d, %s)", d.N, d.Own, rng.Start, rng.End, lost, hx.CoqList(ks, "bytes * bytes * bytes * bool * bool")))
+		obs = append(obs, map[string]any{"n": d.N, "own": d.Own, "range": [2]int{rng.Start, rng.End}, "timers_lost_on_reload": lost})
 	}
 	opr.Stop()
 	cancel()
 	<-done
-	term := fmt.Sprintf("DeployC %d %s", op.Count, hx.CoqList(items, "N * N * (N * N) * list (bytes * bytes * bytes * bool * bool)"))
+	term := fmt.Sprintf("DeployC %d %s", op.Count, hx.CoqList(items, "N * N * (N * N) * N * list (bytes * bytes * bytes * bool * bool)"))
 	return &hx.Result{Term: term, Nontrivial: true, Tags: []string{"deploy", fmt.Sprintf("deploys=%d", len(op.Deploys))}, Observed: obs}, nil
 }
 
